@@ -638,3 +638,83 @@ func (w *World) RedefineCall(target *argmapper.Func, args []argmapper.Arg) (rf *
 	o = w.Call(rf, callArgs)
 	return rf, nil, "", fresh, o
 }
+
+// Prime writes values into the value sets of already realized functions the
+// way real programs do before a call: mode "wrap" builds a wrapper with
+// BuildFunc(f.Input(), f.Output(), cb) -- the idiom for decorating a function
+// -- and calls it once with exactly matching arguments; mode "fromsig" loads
+// values with f.Input().FromSignature. Either leaves Value fields set inside
+// f.Input(); they must have no influence on later calls of f.
+func (w *World) Prime(mode string) {
+	w.mu.Lock()
+	type pair struct {
+		fs *FuncSpec
+		f  *argmapper.Func
+	}
+	var fns []pair
+	for id, f := range w.Funcs {
+		fns = append(fns, pair{w.Specs[id], f})
+	}
+	w.mu.Unlock()
+	for _, p := range fns {
+		if p.fs.Built || len(p.fs.In) == 0 {
+			continue
+		}
+		var o Outcome
+		Protect(&o, func() {
+			switch mode {
+			case "wrap":
+				wrapper, err := argmapper.BuildFunc(p.f.Input(), p.f.Output(), func(in, out *argmapper.ValueSet) error {
+					for _, l := range p.fs.Out {
+						var v *argmapper.Value
+						if l.Named() {
+							v = out.Named(l.Name)
+						} else {
+							v = out.Typed(Types[l.Type])
+						}
+						if v != nil {
+							slot := reflect.New(Types[l.Type]).Elem()
+							slot.Set(MakeValue(l.Dyn, 0))
+							v.Value = slot
+						}
+					}
+					return nil
+				})
+				if err != nil {
+					return
+				}
+				var args []argmapper.Arg
+				for i, l := range p.fs.In {
+					cl := l
+					if IsIface(cl.Type) {
+						continue
+					}
+					args = append(args, InputArg(Input{L: cl, Tok: 900 + i}))
+				}
+				args = append(args, Quiet())
+				wrapper.Call(args...)
+			case "fromsig":
+				sig := p.f.Input().Signature()
+				vals := make([]reflect.Value, len(sig))
+				if p.fs.InForm == FormPos {
+					for i, l := range p.fs.In {
+						slot := reflect.New(sig[i]).Elem()
+						if !IsIface(l.Type) {
+							slot.Set(MakeValue(l.Type, 900+i))
+						}
+						vals[i] = slot
+					}
+				} else {
+					sv := reflect.New(sig[0]).Elem()
+					for i, l := range p.fs.In {
+						if !IsIface(l.Type) {
+							sv.Field(i + 1).Set(MakeValue(l.Type, 900+i))
+						}
+					}
+					vals[0] = sv
+				}
+				p.f.Input().FromSignature(vals)
+			}
+		})
+	}
+}
